@@ -37,6 +37,7 @@ type origin struct {
 	skipFold    bool // the answer of this call is replaced by an injected status
 	calls       int
 	faults      []string
+	ctype       string // media type announced for valid documents
 }
 
 func (o *origin) doc() string { return provsim.RuleSetYAML(o.host, o.version, 1+o.version%2) }
@@ -58,6 +59,7 @@ func httpProvSim(r *simcore.Run) {
 		var faultKinds []simnet.FaultKind
 		for i := 0; i < nEP; i++ {
 			o := &origin{host: fmt.Sprintf("origin%d", i), kind: "valid", version: 1, model: provsim.NewSourceModel()}
+			o.ctype = simcore.Pick(s, []string{"application/yaml", "application/yaml", "application/yaml; charset=utf-8", "Application/YAML"}, "media-type")
 			o.source = "http_endpoint:http://" + o.host + "/rules.yaml"
 			origins = append(origins, o)
 			eps = append(eps, map[string]any{"url": "http://" + o.host + "/rules.yaml"})
@@ -83,7 +85,8 @@ func httpProvSim(r *simcore.Run) {
 					if o.maxAge > 0 {
 						o.cachedID, o.cachedUntil = id, time.Now().Add(time.Duration(o.maxAge)*time.Second)
 					}
-					w.Header().Set("Content-Type", "application/yaml")
+					// the media type may carry parameters and is case-insensitive (what web frameworks send by default)
+					w.Header().Set("Content-Type", o.ctype)
 					w.Write([]byte(doc))
 				case "invalid":
 					o.model.Kept("syntactically invalid")
